@@ -361,6 +361,17 @@ def part_literals(ctx, dist, strings):
 
 
 # ------------------------------------------------------------------ D. generated scripts: the compiler is the oracle
+IMP = "from Reduino import target\ntarget(\"COM3\")\nfrom Reduino.Actuators import Led\nfrom Reduino.Utils import sleep\n"
+EDGE_SCRIPTS = [                      # empty setup(), empty loop(), both, nothing but globals
+    IMP + "while True:\n    sleep(1000)\n",
+    IMP + "led = Led(13)\nled.on()\n",
+    IMP + "x = 1\n",
+    "from Reduino import target\ntarget(\"COM3\")\n",
+    IMP + "x = 1\ny = 2.5\nname = \"n\"\nwhile True:\n    x = x + 1\n",
+    IMP + "led = Led(13)\nwhile True:\n    led.toggle()\n    sleep(250)\n",
+]
+
+
 def gen_scripts(rng, n):
     out = []
     kinds = G.ALL_KINDS
@@ -414,8 +425,8 @@ def analyse_sections(ctx, src, r, consts, compiled, dist, expect_guard=True):
 def part_scripts(ctx, dist, samples):
     rng = ctx.rng
     thorough = ctx.tier == "thorough"
-    n = 1400 if thorough else 160
-    scripts = gen_scripts(rng, n)
+    n = 2000 if thorough else 160
+    scripts = [(x, {"edge script": 1}) for x in EDGE_SCRIPTS] + gen_scripts(rng, n)
     feats = Counter()
     inside = []
     for src, f in scripts:
